@@ -49,7 +49,10 @@ PROP = {
             "(replies published after a listener ended by time-out while the caller never cancels must still be published and their commands "
             "settled within the liveness bound); a Router time-out middleware ending the command message's context while the handler works "
             "(reply published and command settled per AckCommandErrors all the same; a settlement without a published reply is a violation); "
-            "SendWithReply / SendWithReplies failing to send; handler error texts containing % patterns, "
+            "SendWithReply / SendWithReplies failing to send; two command types with their own concurrently "
+            "running handlers whose successful replies overlap between operation-id stamping and Publish (rendezvous in "
+            "ModifyNotificationMessage); handler errors of every construction kind (errors.New, %w, pkg/errors Wrap/Wrapf/WithMessage/"
+            "WithStack, an own type with a Cause method); handler error texts containing % patterns, "
             "compared byte for byte; caller contexts with their own deadline later / earlier than ListenForReplyTimeout and without a backend "
             "time-out; scenarios with and without an "
             "OnListenForReplyFinished hook configured (without it the end of the listeners is taken from the goroutine census and the channel "
